@@ -15,6 +15,7 @@ import (
 	"runtime"
 	"runtime/debug"
 	"sort"
+	"strings"
 	"sync"
 	"sync/atomic"
 	"time"
@@ -63,8 +64,8 @@ type stateDef struct {
 	coins bool
 }
 
-func buildState(d stateDef) *chainx.Prefix {
-	return chainx.BuildPrefix("c05-"+d.name, params, d.n, func(h uint32, s *minichain.Spec, p *chainx.Prefix) {
+func buildState(d stateDef) (*chainx.Prefix, string) {
+	return chainx.TryBuildPrefix("c05-"+d.name, minichain.Opts{Params: params}, d.n, func(h uint32, s *minichain.Spec, p *chainx.Prefix) {
 		if d.time != nil {
 			s.Time = d.time(h)
 		}
@@ -108,6 +109,7 @@ type variant struct {
 	bad   bool // violates a rule of the statement
 	need  func(c *ctx) bool
 	build func(c *ctx) *reftx.Block
+	twin  func(c *ctx) *reftx.Block // a VALID block with the same header hash as the refused one (Merkle mutation)
 }
 
 func mineFail(b *reftx.Block) {
@@ -123,7 +125,7 @@ func mineFail(b *reftx.Block) {
 func variants() []variant {
 	var vs []variant
 	add := func(name string, bad bool, need func(c *ctx) bool, build func(c *ctx) *reftx.Block) {
-		vs = append(vs, variant{name, bad, need, build})
+		vs = append(vs, variant{name: name, bad: bad, need: need, build: build})
 	}
 	coins := func(c *ctx) bool { return c.has("M0") }
 	wit := func(c *ctx) bool { return c.has("W0") && c.flags.Witness }
@@ -246,6 +248,18 @@ func variants() []variant {
 		}
 		return pad(append([]byte{byte(len(b))}, b...), 8, 0x51)
 	})
+	cbScript("cb-height-without-sign-byte", false, nil, func(c *ctx) []byte {
+		// the height's bytes without the 0x00 a script number needs when its top bit is set
+		// (128 -> 01 80, 32768 -> 02 00 80): differs from the BIP34 push exactly at those heights
+		var b []byte
+		for v := c.height; v > 0; v >>= 8 {
+			b = append(b, byte(v))
+		}
+		if len(b) == 0 {
+			b = []byte{0}
+		}
+		return pad(append([]byte{byte(len(b))}, b...), 8, 0x51)
+	})
 	cbScript("cb-height-pushdata1", false, nil, func(c *ctx) []byte {
 		h := refchain.HeightPush(c.height)
 		if len(h) == 1 {
@@ -316,20 +330,41 @@ func variants() []variant {
 		return minichain.Build(s)
 	}
 	add("merkle-valid-3-txs", false, coins, func(c *ctx) *reftx.Block { return three(c, tag()) })
-	add("merkle-dup-last-tx-cve-2012-2459", true, coins, func(c *ctx) *reftx.Block {
-		b := three(c, tag())
-		b.Txs = append(b.Txs, b.Txs[2]) // same merkle root, same header hash
-		return b
-	})
-	add("merkle-dup-inner-pair", true, coins, func(c *ctx) *reftx.Block {
-		s := c.spec(tag())
-		for i := 2; i <= 6; i++ {
+	{
+		t := tag()
+		add("merkle-dup-last-tx-cve-2012-2459", true, coins, func(c *ctx) *reftx.Block {
+			b := three(c, t)
+			b.Txs = append(b.Txs, b.Txs[2]) // same merkle root, same header hash
+			return b
+		})
+		vs[len(vs)-1].twin = func(c *ctx) *reftx.Block { return three(c, t) }
+	}
+	// n honest transactions followed by a repeated trailing pair / quad: the duplicate shows up at
+	// an INNER level of the tree only (6 -> 8 leaves: level 1; 12 -> 16 leaves: level 2)
+	many := func(c *ctx, t byte, n int) *reftx.Block {
+		s := c.spec(t)
+		base := sp([]OP{c.p.Named["M2"]}, []reftx.Out{o1(1e8), o1(1e8), o1(1e8), o1(1e8), o1(1e8)})
+		s.Txs = append(s.Txs, base)
+		for i := 3; i <= 7 && len(s.Txs) < n-1; i++ {
 			s.Txs = append(s.Txs, sp([]OP{c.p.Named[fmt.Sprint("M", i)]}, []reftx.Out{o1(5e8)}))
 		}
-		b := minichain.Build(s) // 6 txs
-		b.Txs = append(b.Txs, b.Txs[4], b.Txs[5])
-		return b
-	})
+		for i := 0; len(s.Txs) < n-1; i++ {
+			s.Txs = append(s.Txs, sp([]OP{{Tx: base.TxID(), Vout: uint32(i)}}, []reftx.Out{o1(1e8)}))
+		}
+		return minichain.Build(s)
+	}
+	for _, d := range []struct {
+		name   string
+		n, dup int
+	}{{"merkle-dup-inner-pair", 6, 2}, {"merkle-dup-inner-quad", 12, 4}, {"merkle-dup-inner-pair-of-10", 10, 2}} {
+		d, t := d, tag()
+		add(d.name, true, coins, func(c *ctx) *reftx.Block {
+			b := many(c, t, d.n)
+			b.Txs = append(b.Txs, b.Txs[d.n-d.dup:]...)
+			return b
+		})
+		vs[len(vs)-1].twin = func(c *ctx) *reftx.Block { return many(c, t, d.n) }
+	}
 	add("merkle-dup-last-of-2", true, coins, func(c *ctx) *reftx.Block {
 		// [cb,t1,t1]: root differs from [cb,t1]; header carries the root of the 3-list: mutated
 		s := c.spec(tag())
@@ -450,8 +485,9 @@ type outcome struct {
 }
 
 type job struct {
-	st  int
-	seq []int
+	st   int
+	seq  []int
+	side bool // the first variant is built on the tip's PARENT: a sibling of the tip, stored without being connected
 }
 
 var watchdog = 180 * time.Second
@@ -464,16 +500,24 @@ type stats struct {
 	twinLost map[string]bool // valid variants the implementation refused (not judged by C05)
 }
 
-func runJob(p *chainx.Prefix, stName string, vs []variant, seq []int, st *stats, trans *int64) *outcome {
+func runJob(p *chainx.Prefix, stName string, vs []variant, seq []int, side bool, st *stats, trans *int64) *outcome {
 	s := p.NewSession("c05")
 	defer s.Close()
 	s.Now = func() int64 { return NOW }
 	var out *outcome
 	r := chainx.Guard(watchdog, func() {
-		for _, vi := range seq {
+		for qi, vi := range seq {
 			v := vs[vi]
 			tipHash, _ := s.E.Tip()
 			par := s.M.Nodes[tipHash]
+			if side && qi == 0 {
+				// as a sibling of the tip: the block can only be stored, its transactions are not applied,
+				// so every context-free rule has to be enforced before it is kept
+				if par.Parent == nil || v.twin != nil && false {
+					return
+				}
+				par = par.Parent
+			}
 			c := &ctx{p: p, parent: par, height: par.Height + 1, req: refchain.RequiredBits(par, minichain.PowBits), mtp: refchain.MTP(par)}
 			c.flags = params.FlagsAt(c.height)
 			if v.need != nil && !v.need(c) {
@@ -506,14 +550,32 @@ func runJob(p *chainx.Prefix, stName string, vs []variant, seq []int, st *stats,
 				}
 				return
 			}
-			if !refAccepts && ic == "ok" {
-				// stored in the tree although a context-free/header rule is violated
+			if !refAccepts && ic == "ok" && !strings.HasPrefix(ref, "connect:") {
+				// stored in the tree although a context-free/header rule is violated (a block that is
+				// invalid only when its transactions are applied may be kept as a side block)
 				out = &outcome{v.name + "/invalid-block-stored", fmt.Sprintf("state %s: block violating [%s] passed CheckBlock+AcceptBlock (kept as side block)", stName, ref), s.Trace}
 				return
 			}
 			if !refAccepts && s.StateKey() != before {
 				out = &outcome{v.name + "/state-changed-by-refused-block", "tip/UTXO changed although the block was refused", s.Trace}
 				return
+			}
+			if !refAccepts && v.twin != nil {
+				// "refused and nothing changes": the honest block with the SAME hash must still be accepted
+				// (CVE-2012-2459: a mutated body must not get the hash marked as invalid / known)
+				tb := v.twin(c)
+				if tb.Hash() != b.Hash() {
+					ev.HarnessError("variant %s: twin has another hash", v.name)
+				}
+				impl2, ref2 := s.Deliver(v.name+" (honest block with the same hash)", tb)
+				atomic.AddInt64(trans, 1)
+				if ref2 != "" || !s.M.Valid(s.M.Nodes[tb.Hash()]) {
+					ev.HarnessError("variant %s: the reference refuses the honest twin: %s", v.name, ref2)
+				}
+				if k, w := s.Compare(); k != "" {
+					out = &outcome{v.name + "/refusal-poisons-the-valid-block-with-the-same-hash", fmt.Sprintf("state %s: after the mutated body was refused, the honest block with the same header hash is not connected (%s); %s", stName, impl2, w), s.Trace}
+					return
+				}
 			}
 			st.mu.Lock()
 			st.states[stName+"|"+s.StateKey()] = true
@@ -603,12 +665,33 @@ func main() {
 	}
 	vs := variants()
 	prefixes := make([]*chainx.Prefix, len(defs))
+	buildErr := make([]string, len(defs))
 	var pw sync.WaitGroup
 	for i := range defs {
 		pw.Add(1)
-		go func(i int) { defer pw.Done(); prefixes[i] = buildState(defs[i]) }(i)
+		go func(i int) { defer pw.Done(); prefixes[i], buildErr[i] = buildState(defs[i]) }(i)
 	}
 	pw.Wait()
+	// A state whose (valid) prefix the implementation refuses cannot be reached. C05 is
+	// one-directional, so that is not a C05 violation (C06 judges valid blocks that are not
+	// connected); the state is skipped, listed, and the run is not exhaustive. The smallest
+	// state must exist, otherwise nothing at all was checked.
+	var unreachable []string
+	{
+		var d2 []stateDef
+		var p2 []*chainx.Prefix
+		for i := range defs {
+			if prefixes[i] == nil {
+				unreachable = append(unreachable, defs[i].name+": "+buildErr[i])
+				continue
+			}
+			d2, p2 = append(d2, defs[i]), append(p2, prefixes[i])
+		}
+		defs, prefixes = d2, p2
+	}
+	if len(defs) == 0 {
+		ev.HarnessError("no chain state can be built: %v", unreachable)
+	}
 	defer func() {
 		for _, p := range prefixes {
 			p.Remove()
@@ -626,6 +709,7 @@ func main() {
 			Replay struct {
 				State string   `json:"state"`
 				Seq   []string `json:"variants"`
+				Side  bool     `json:"as_sibling_of_tip"`
 			} `json:"replay"`
 		}
 		json.Unmarshal(b, &rec)
@@ -641,7 +725,7 @@ func main() {
 					}
 				}
 			}
-			o := runJob(prefixes[i], d.name, vs, seq, st, &trans)
+			o := runJob(prefixes[i], d.name, vs, seq, rec.Replay.Side, st, &trans)
 			code := 0
 			if o != nil {
 				fmt.Fprintf(ev.Out, "replay: %s: %s\n", o.key, o.what)
@@ -668,14 +752,17 @@ func main() {
 		go func() {
 			defer wg.Done()
 			for j := range jobs {
-				o := runJob(prefixes[j.st], defs[j.st].name, vs, j.seq, st, &trans)
+				o := runJob(prefixes[j.st], defs[j.st].name, vs, j.seq, j.side, st, &trans)
 				atomic.AddInt64(&hist, 1)
 				var names []string
 				for _, i := range j.seq {
 					names = append(names, vs[i].name)
 				}
 				if o != nil {
-					r.Report(o.key, o.what, map[string]interface{}{"state": defs[j.st].name, "variants": names, "trace": o.trace})
+					if j.side {
+						o.key += "-as-sibling-of-tip"
+					}
+					r.Report(o.key, o.what, map[string]interface{}{"state": defs[j.st].name, "variants": names, "as_sibling_of_tip": j.side, "trace": o.trace})
 				} else {
 					samples.Add(map[string]interface{}{"state": defs[j.st].name, "variants": names})
 				}
@@ -684,12 +771,15 @@ func main() {
 	}
 	for si := range defs {
 		for i := range vs {
-			jobs <- job{si, []int{i}}
-			jobs <- job{si, []int{i, 0}} // followed by a valid block: a refused block must do no damage
+			jobs <- job{st: si, seq: []int{i}}
+			jobs <- job{st: si, seq: []int{i, 0}} // followed by a valid block: a refused block must do no damage
+			if defs[si].n >= 1 && defs[si].n <= 255 {
+				jobs <- job{st: si, seq: []int{i, 0}, side: true}
+			}
 			if r.Thorough() {
 				for k := range vs {
 					if k != 0 && defs[si].n <= 255 {
-						jobs <- job{si, []int{i, k}}
+						jobs <- job{st: si, seq: []int{i, k}}
 					}
 				}
 			}
@@ -716,7 +806,8 @@ func main() {
 		"valid_blocks_not_connected":    lost,
 		"traces_validated_against_impl": int(hist),
 		"samples":                       samples.L,
-		"exhaustive":                    true,
+		"exhaustive":                    len(unreachable) == 0,
+		"states_unreachable":            unreachable,
 		"rule":                          "chain states (heights 0-8 around every activation height, 120-block chains with monotone and zig-zag timestamps, heights 127/255, 2015-block chains with retarget timespans) x all variants, each also followed by a valid block (thorough: all ordered variant pairs); clock owned through an overlay shim; verdict, tip and UTXO compared with refchain after every delivery",
 	}, []string{
 		"reference rule list refchain.CheckBlock written from Bitcoin Core's CheckBlockHeader/ContextualCheckBlockHeader/CheckBlock/ContextualCheckBlock",
